@@ -33,7 +33,14 @@ class BabelMakoExtractor(MessageExtractor):
             funcname,
             messages,
             python_translator_comments,
-        ) in extract_python(code, self.keywords, comment_tags, self.options):
+        ) in extract_python(
+            code,
+            self.keywords,
+            comment_tags,
+            # the code was encoded by extract_nodes() with the encoding
+            # given as "input_encoding" or "encoding"
+            dict(self.options, encoding=self.config["encoding"] or "ascii"),
+        ):
             yield (
                 code_lineno + (lineno - 1),
                 funcname,
